@@ -30,6 +30,38 @@ os.environ.setdefault("NMEA2000_VERIF", "1")
 
 logging.disable(logging.CRITICAL)
 
+
+# ---- controllable process clock --------------------------------------------------------------------
+# Installed before the library under test is imported, so that both `time.monotonic()` and `from time import monotonic`
+# inside it see these wrappers.  With offset 0 they are the real clocks; a check may "warp" time forward between two
+# inputs (e.g. between two frames of a fast-packet message) to expose behaviour that depends on elapsed real time.
+import time as _time
+
+
+class _Clock:
+    offset = 0.0
+
+    def warp(self, seconds: float):
+        _Clock.offset += seconds
+
+    def reset(self):
+        _Clock.offset = 0.0
+
+
+CLOCK = _Clock()
+if not getattr(_time, "_vf_wrapped", False):
+    _real = {n: getattr(_time, n) for n in ("monotonic", "time", "perf_counter", "monotonic_ns", "time_ns", "perf_counter_ns")}
+    _time.monotonic = lambda: _real["monotonic"]() + _Clock.offset
+    _time.time = lambda: _real["time"]() + _Clock.offset
+    _time.perf_counter = lambda: _real["perf_counter"]() + _Clock.offset
+    _time.monotonic_ns = lambda: _real["monotonic_ns"]() + int(_Clock.offset * 1e9)
+    _time.time_ns = lambda: _real["time_ns"]() + int(_Clock.offset * 1e9)
+    _time.perf_counter_ns = lambda: _real["perf_counter_ns"]() + int(_Clock.offset * 1e9)
+    _time._vf_wrapped = True
+    REAL_TIME = _real["time"]
+else:
+    REAL_TIME = _time.time
+
 NPROC = min(16, os.cpu_count() or 1)
 
 
@@ -330,7 +362,7 @@ def finish(ctx: Ctx, *, level: str, rule: str, assumptions, t0: float, extra=Non
     ev = {
         "property_id": pid, "tier": ctx.tier if ctx.tier in ("quick", "thorough") else "quick",
         "seed": ctx.seed, "level": level, "coverage": coverage,
-        "assumptions": list(assumptions), "wall_s": round(time.time() - t0, 2),
+        "assumptions": list(assumptions), "wall_s": round(max(0.0, time.time() - CLOCK.offset - t0), 2),
         "violations": len(violations),
     }
     with open(os.path.join(ev_dir, pid + ".json"), "w") as f:
